@@ -101,7 +101,7 @@ def history_case(L, first_ops, virtual_ids=True):
 
 
 def cases(tier, seed):
-    L = 4 if tier == "quick" else 6
+    L = 4 if tier == "quick" else 5
     cs = []
     firsts = [[("create", c)] for c in CREATE] + [[("query", "T")], [("clear",)], [("collect",)], [("declare", "T")]]
     if tier != "quick":
@@ -113,7 +113,7 @@ def cases(tier, seed):
 
 
 def describe(tier):
-    L = 4 if tier == "quick" else 6
+    L = 4 if tier == "quick" else 5
     return dict(
         rule="histories of %d operations chosen by bounded symbolic choices from {create T / Sub(T) / Other / Falsy(T) (an instance whose truth value is False) / Diamond(Sub, Sub2) (reachable from T over two inheritance paths), drop the program's reference to instance i, gc.collect(), "
         "query T / Sub with an(entity(let(type, None))), declare such a query now and evaluate it at the end of the history, SymbolGraph clear + re-create}, followed by a query of every type; run on the REAL SymbolGraph, rustworkx graph, "
